@@ -194,28 +194,41 @@ def install():
 # harness operator: pass-through MuxObservable that records what goes by
 
 def tap(log, deep=True):
+    """pass-through MuxObservable that records what goes by.  When the same observable is subscribed again while an
+    earlier subscription is still alive (a consumer swap), only the LATEST subscription writes to the log: rxsci's
+    context operators hand the outer events of one subscription to every live one (their outer Subject belongs to the
+    operator), and the judged subscription is the latest."""
     cp = copy.deepcopy if deep else (lambda x: x)
 
     def _tap(source):
+        gen = [0]
+
         def on_subscribe(observer, scheduler):
+            gen[0] += 1
+            mine = gen[0]
+
+            def rec(entry):
+                if mine == gen[0]:
+                    log.append(entry)
+
             def on_next(i):
                 t = type(i)
                 if t is rs.OnNextMux:
-                    log.append(('N', i.key, cp(i.item)))
+                    rec(('N', i.key, cp(i.item)))
                 elif t is rs.OnCreateMux:
-                    log.append(('C', i.key))
+                    rec(('C', i.key))
                 elif t is rs.OnCompletedMux:
-                    log.append(('D', i.key))
+                    rec(('D', i.key))
                 elif t is rs.OnErrorMux:
-                    log.append(('E', i.key, i.error))
+                    rec(('E', i.key, i.error))
                 observer.on_next(i)
 
             def on_error(e):
-                log.append(('error', e))
+                rec(('error', e))
                 observer.on_error(e)
 
             def on_completed():
-                log.append(('done',))
+                rec(('done',))
                 observer.on_completed()
 
             return source.subscribe(on_next=on_next, on_error=on_error, on_completed=on_completed,
@@ -230,25 +243,34 @@ def ttap(log, tag, deep=True):
     cp = copy.deepcopy if deep else (lambda x: x)
 
     def _tap(source):
+        gen = [0]
+
         def on_subscribe(observer, scheduler):
+            gen[0] += 1
+            mine = gen[0]
+
+            def rec(entry):
+                if mine == gen[0]:
+                    log.append(entry)
+
             def on_next(i):
                 t = type(i)
                 if t is rs.OnNextMux:
-                    log.append((tag, 'N', i.key, cp(i.item)))
+                    rec((tag, 'N', i.key, cp(i.item)))
                 elif t is rs.OnCreateMux:
-                    log.append((tag, 'C', i.key, None))
+                    rec((tag, 'C', i.key, None))
                 elif t is rs.OnCompletedMux:
-                    log.append((tag, 'D', i.key, None))
+                    rec((tag, 'D', i.key, None))
                 elif t is rs.OnErrorMux:
-                    log.append((tag, 'E', i.key, i.error))
+                    rec((tag, 'E', i.key, i.error))
                 observer.on_next(i)
 
             def on_error(e):
-                log.append((tag, 'error', None, e))
+                rec((tag, 'error', None, e))
                 observer.on_error(e)
 
             def on_completed():
-                log.append((tag, 'done', None, None))
+                rec((tag, 'done', None, None))
                 observer.on_completed()
 
             return source.subscribe(on_next=on_next, on_error=on_error, on_completed=on_completed,
